@@ -2,7 +2,7 @@
    (unfolding lemmas by reflexivity) and their value-level lemmas. *)
 From Coq Require Import QArith.
 From HclV Require Import Base.Prelude Cty.Values Cty.Convert Cty.Ops Eval.Impl
-     Eval.MarksNI Eval.MarksNI_Ops Eval.MarksNI_Index Eval.MarksNI_Funcs.
+     Eval.MarksNI Eval.MarksNI_Ops Eval.MarksNI_Index Eval.MarksNI_Conv Eval.MarksNI_Funcs.
 Open Scope Z_scope.
 
 Definition is_sc (o : binop) : bool := match o with OpOr | OpAnd => true | _ => false end.
@@ -668,11 +668,11 @@ Proof.
 Qed.
 
 Lemma cond_pick_leq m rt mk cds1 cds2 b1 b2 bd1 bd2 nc o1 o2 v1 v2 ds1 ds2 :
-  leq m b1 b2 -> leq m o1 o2 -> (nc = true -> pd_ty rt = true \/ prim_head b1 = true \/ b1 = b2) ->
+  leq m b1 b2 -> leq m o1 o2 -> wf b1 -> wf b2 -> (nc = true -> type_of b1 = type_of b2 \/ noobj rt = true) ->
   cond_pick rt mk cds1 b1 bd1 nc o1 = (v1, ds1) -> cond_pick rt mk cds2 b2 bd2 nc o2 = (v2, ds2) ->
   clean ds1 -> clean ds2 -> leq m v1 v2.
 Proof.
-  intros L Lo Hs E1 E2 K1 K2.
+  intros L Lo Wb1 Wb2 Hs E1 E2 K1 K2.
   destruct (mark_mem m (deep_marks o1)) eqn:Z.
   { (* the unselected result carries m somewhere: both results are marked *)
     destruct (cond_pick_marked _ _ _ _ _ _ _ _ _ E1 K1) as [x1 ->].
@@ -684,26 +684,24 @@ Proof.
   - destruct (conv b1 rt) as [r1| |] eqn:C1; try (injection E1 as <- <-; exfalso; apply clean_app in K1 as [_ K1]; bad K1).
     destruct (conv b2 rt) as [r2| |] eqn:C2; try (injection E2 as <- <-; exfalso; apply clean_app in K2 as [_ K2]; bad K2).
     injection E1 as <- _. injection E2 as <- _. apply with_marks_leq; [|apply marks_rel_refl].
-    destruct (Hs eq_refl) as [Hp|[Hp|Hp]].
-    + exact (conv_leq_pd m rt _ _ _ _ Hp L C1 C2).
-    + assert (b1 = b2).
-      { apply (leq_prim_eq m); [exact L|]. destruct b1; try discriminate Hp; exact I. }
-      subst b2. rewrite C1 in C2. injection C2 as <-. apply leq_refl.
-    + subst b2. rewrite C1 in C2. injection C2 as <-. apply leq_refl.
+    exact (conv_leq m _ _ _ _ _ L Wb1 Wb2 (Hs eq_refl) C1 C2).
   - injection E1 as <- _. injection E2 as <- _. apply with_marks_leq; [exact L|apply marks_rel_refl].
 Qed.
 
 Lemma cond_tail_leq m rt tc fc cv1 cv2 cds1 cds2 tv1 tv2 td1 td2 fv1 fv2 fd1 fd2 v1 v2 ds1 ds2 :
   leq m cv1 cv2 -> leq m tv1 tv2 -> leq m fv1 fv2 ->
   is_star m cv1 = false -> is_star m tv1 = false -> is_star m fv1 = false ->
-  wf cv1 ->
-  (tc = true -> pd_ty rt = true \/ prim_head (fst (unmark tv1)) = true \/ fst (unmark tv1) = fst (unmark tv2)) ->
-  (fc = true -> pd_ty rt = true \/ prim_head (fst (unmark fv1)) = true \/ fst (unmark fv1) = fst (unmark fv2)) ->
+  wf cv1 -> wf tv1 -> wf tv2 -> wf fv1 -> wf fv2 ->
+  (tc = true -> type_of tv1 = type_of tv2 \/ noobj rt = true) ->
+  (fc = true -> type_of fv1 = type_of fv2 \/ noobj rt = true) ->
   cond_tail rt tc fc cv1 cds1 tv1 td1 fv1 fd1 = (v1, ds1) ->
   cond_tail rt tc fc cv2 cds2 tv2 td2 fv2 fd2 = (v2, ds2) ->
   clean ds1 -> clean ds2 -> leq m v1 v2.
 Proof.
-  intros Lc Lt Lf Sc St Sf Wc Ht Hf E1 E2 K1 K2. unfold cond_tail in E1, E2.
+  intros Lc Lt Lf Sc St Sf Wc Wt1 Wt2 Wf1 Wf2 Ht Hf E1 E2 K1 K2. unfold cond_tail in E1, E2.
+  rewrite (type_of_unmark tv1), (type_of_unmark tv2) in Ht. rewrite (type_of_unmark fv1), (type_of_unmark fv2) in Hf.
+  apply wf_unmark in Wt1 as [_ Wt1]. apply wf_unmark in Wt2 as [_ Wt2].
+  apply wf_unmark in Wf1 as [_ Wf1]. apply wf_unmark in Wf2 as [_ Wf2].
   destruct (leq_nostar_facts _ _ _ Lc Sc Wc) as (Nc & _ & _). rewrite <- Nc in E2.
   destruct (is_null cv1); [injection E1 as <- <-; bad K1|].
   pose proof (marks_of_eq _ _ _ Lc Sc) as Mc. pose proof (marks_of_eq _ _ _ Lt St) as Mt.
@@ -730,8 +728,8 @@ Proof.
   assert (Lb : leq m b1 b2) by (eapply (conv_leq_pd m TBool); [reflexivity|exact Xc|exact C1|exact C2]).
   leq_heads Lb; try (injection E1 as <- <-; bad K1).
   injection Lb as ->. destruct b0.
-  - eapply cond_pick_leq; [exact Xt|exact Xf|exact Ht|exact E1|exact E2|exact K1|exact K2].
-  - eapply cond_pick_leq; [exact Xf|exact Xt|exact Hf|exact E1|exact E2|exact K1|exact K2].
+  - eapply cond_pick_leq; [exact Xt|exact Xf|exact Wt1|exact Wt2|exact Ht|exact E1|exact E2|exact K1|exact K2].
+  - eapply cond_pick_leq; [exact Xf|exact Xt|exact Wf1|exact Wf2|exact Hf|exact E1|exact E2|exact K1|exact K2].
 Qed.
 
 Lemma is_dyn_null_leq m a b : leq m a b -> is_dyn_null a = is_dyn_null b.
@@ -803,11 +801,11 @@ Qed.
 Lemma elements_wf v : wf v -> Forall wf_pair (elements v).
 Proof.
   unfold wf. destruct v; cbn [elements wfb]; intro H; try constructor.
-  - apply index_from_wf, H.
-  - induction l as [|x r IH]; cbn [map forallb] in *; constructor.
+  - apply index_from_wf. eapply wfl_weaken, H.
+  - apply wfl_weaken in H. induction l as [|x r IH]; cbn [map forallb] in *; constructor.
     + apply andb_true_iff in H as [A _]. split; exact A.
     + apply andb_true_iff in H as [_ B]. apply IH, B.
-  - induction l as [|x r IH]; cbn [map forallb] in *; constructor.
+  - apply wfm_weaken in H. induction l as [|x r IH]; cbn [map forallb] in *; constructor.
     + apply andb_true_iff in H as [A _]. split; [reflexivity|exact A].
     + apply andb_true_iff in H as [_ B]. apply IH, B.
   - apply index_from_wf, H.
@@ -1266,6 +1264,18 @@ Qed.
 (* ---- splat ------------------------------------------------------------------------------------------ *)
 Definition is_seq_ty (t : ty) : bool := match t with TTuple _ | TList _ | TSet _ => true | _ => false end.
 
+(* resultTy(): the type of the splat result, probing Each with unknown items *)
+Definition splat_result_ty (ev : ctx -> option val -> val * list diag) (c : ctx) (sty : ty) : ty * list diag :=
+  match sty with
+  | TList et | TSet et =>
+      let '(v, ids) := ev (mkFrame None None :: c) (Some (VUnk et rf_none)) in
+      (TList (type_of v), ids)
+  | TTuple ets =>
+      let rs := map (fun et => ev (mkFrame None None :: c) (Some (VUnk et rf_none))) ets in
+      (TTuple (map (fun r => type_of (fst r)) rs), concat (map snd rs))
+  | _ => (TDyn, [])
+  end.
+
 (* ev: the evaluation of Each, as a function of context and anonymous symbol *)
 Definition splat_tail (ev : ctx -> option val -> val * list diag) (c : ctx) (sv0 : val) (ds : list diag) : val * list diag :=
   if has_errors ds then (dyn_val, ds)
@@ -1286,16 +1296,7 @@ Definition splat_tail (ev : ctx -> option val -> val * list diag) (c : ctx) (sv0
     else Some false in
   let sv := if auto then with_same_marks (VTuple [sv0]) sv0 else sv0 in
   let sty := type_of sv in
-  let result_ty : ty * list diag :=
-    match sty with
-    | TList et | TSet et =>
-        let '(v, ids) := ev (mkFrame None None :: c) (Some (VUnk et rf_none)) in
-        (TList (type_of v), ids)
-    | TTuple ets =>
-        let rs := map (fun et => ev (mkFrame None None :: c) (Some (VUnk et rf_none))) ets in
-        (TTuple (map (fun r => type_of (fst r)) rs), concat (map snd rs))
-    | _ => (TDyn, [])
-    end in
+  let result_ty : ty * list diag := splat_result_ty ev c sty in
   if negb (is_known sv) then
     let '(rt, tds) := result_ty in
     let ds := ds ++ tds in
@@ -1605,3 +1606,290 @@ Proof.
                 (combine (seq 0 (length l)) l) ([], d0)) as M.
   rewrite Fo in M. apply M, Kd.
 Qed.
+
+(* ---- result types of GetAttr / Index / traversals are determined by the type of the operand ------- *)
+Definition get_attr_ty (t : ty) (name : list Z) : option ty :=
+  match t with
+  | TObj fs => assoc_get name fs
+  | TMap et => Some et
+  | TDyn => Some TDyn
+  | _ => None
+  end.
+
+Lemma wf_assoc_get_ty t k (l : list (list Z * val)) v :
+  forallb (fun p => ty_eqb (type_of (snd p)) t && wfb (snd p)) l = true -> assoc_get k l = Some v -> type_of v = t.
+Proof.
+  induction l as [|[k' x] r IH]; cbn [forallb assoc_get snd]; intros H E; [discriminate|].
+  apply andb_true_iff in H as [A B]. apply andb_true_iff in A as [A _]. apply ty_eqb_eq in A.
+  destruct (str_eqb k k'); [injection E as <-; exact A|auto].
+Qed.
+Lemma wf_nth_opt_ty t (l : list val) i v :
+  forallb (fun x => ty_eqb (type_of x) t && wfb x) l = true -> nth_opt l i = Some v -> type_of v = t.
+Proof.
+  revert i; induction l as [|x r IH]; intros i H E; destruct i; cbn [nth_opt forallb] in *; try discriminate;
+    apply andb_true_iff in H as [A B]; [injection E as <-; apply andb_true_iff in A as [A _]; apply ty_eqb_eq, A|eauto].
+Qed.
+Lemma nth_opt_map {A B} (g : A -> B) (l : list A) i : nth_opt (map g l) i = option_map g (nth_opt l i).
+Proof. revert i; induction l; intros [|i]; cbn; auto. Qed.
+
+Lemma get_attr_u_type x om n r ds :
+  wf x -> is_mark x = false -> get_attr_u x om n = (r, ds) -> clean ds -> get_attr_ty (type_of x) n = Some (type_of r).
+Proof.
+  intros W N E K. unfold get_attr_u in E. unfold get_attr_ty.
+  destruct (hd_null x); [injection E as <- <-; bad K|].
+  destruct (type_of x) eqn:T; try (injection E as <- <-; bad K).
+  - injection E as <- _. rewrite type_of_with_marks. reflexivity.
+  - destruct t; injection E as <- <-; bad K.
+  - destruct t; injection E as <- <-; bad K.
+  - destruct (negb (hd_known x)); [injection E as <- _; rewrite type_of_with_marks; reflexivity|].
+    destruct x; try (injection E as <- <-; bad K). cbn [type_of] in T. injection T as ->.
+    destruct (assoc_get n l) eqn:G; injection E as <- <-; [|bad K].
+    rewrite type_of_with_marks. unfold wf in W. cbn [wfb] in W. f_equal. symmetry. eapply wf_assoc_get_ty; eassumption.
+  - destruct (assoc_get n fs) as [at_|] eqn:G; [|injection E as <- <-; bad K].
+    destruct (negb (hd_known x)); [injection E as <- _; rewrite type_of_with_marks; reflexivity|].
+    destruct x; try (injection E as <- <-; bad K). cbn [type_of] in T. injection T as <-.
+    rewrite assoc_get_map in G. destruct (assoc_get n l) eqn:G2; [|discriminate G]. cbn [option_map] in G.
+    injection E as <- _. rewrite type_of_with_marks. symmetry. exact G.
+Qed.
+
+Lemma get_attr_type o n r ds :
+  wf o -> get_attr o n = (r, ds) -> clean ds -> get_attr_ty (type_of o) n = Some (type_of r).
+Proof.
+  intros W E K. rewrite get_attr_unfold in E. rewrite type_of_unmark. destruct (wf_unmark _ W) as [N Wu].
+  eapply get_attr_u_type; eassumption.
+Qed.
+
+Definition index_ty (t : ty) (k : val) : option ty :=
+  if ty_eqb (type_of k) TDyn || ty_eqb t TDyn then Some TDyn
+  else
+  match t with
+  | TList et | TMap et => Some et
+  | TTuple ts =>
+      match conv k TNum with
+      | COk key' =>
+          match fst (unmark key') with
+          | VNum n => match index_of_num n with Some i => nth_opt ts i | None => None end
+          | VUnk _ _ => Some TDyn
+          | _ => None
+          end
+      | _ => None
+      end
+  | TObj fs =>
+      match conv k TStr with
+      | COk key' =>
+          if negb (is_known key') then Some TDyn
+          else match fst (unmark key') with
+               | VStr name => assoc_get name fs
+               | _ => None
+               end
+      | _ => None
+      end
+  | _ => None
+  end.
+
+Lemma index_u_type x cm k r ds :
+  wf x -> is_mark x = false -> index_u x cm k = (r, ds) -> clean ds -> index_ty (type_of x) k = Some (type_of r).
+Proof.
+  intros W N E K. unfold index_u in E. unfold index_ty.
+  destruct (hd_null x) eqn:Hn; [injection E as <- <-; bad K|].
+  destruct (is_null k); [injection E as <- <-; bad K|].
+  destruct (ty_eqb (type_of k) TDyn || ty_eqb (type_of x) TDyn).
+  { injection E as <- _. rewrite !type_of_with_marks. reflexivity. }
+  destruct (type_of x) eqn:T; cbv beta iota zeta in E; try (injection E as <- <-; bad K).
+  - (* list *)
+    destruct (conv k TNum) as [key'| |]; try (injection E as <- <-; bad K).
+    destruct (unmark key') as [ku km].
+    destruct (has_index x ku); [|injection E as <- <-; bad K|injection E as <- _; rewrite !type_of_with_marks; reflexivity].
+    destruct (index_known x ku) as [v|] eqn:IK; injection E as <- <-; [|bad K].
+    rewrite !type_of_with_marks. f_equal. symmetry.
+    destruct x; cbn [type_of] in T; try discriminate T; try discriminate Hn; try discriminate N.
+    + subst t0. cbn [index_known] in IK. discriminate IK.
+    + injection T as ->. unfold index_known in IK. destruct ku; try discriminate IK.
+      destruct (index_of_num n); [|discriminate IK].
+      unfold wf in W. cbn [wfb] in W. eapply wf_nth_opt_ty; eassumption.
+  - (* map *)
+    destruct (conv k TStr) as [key'| |]; try (injection E as <- <-; bad K).
+    destruct (unmark key') as [ku km].
+    destruct (has_index x ku); [|injection E as <- <-; bad K|injection E as <- _; rewrite !type_of_with_marks; reflexivity].
+    destruct (index_known x ku) as [v|] eqn:IK; injection E as <- <-; [|bad K].
+    rewrite !type_of_with_marks. f_equal. symmetry.
+    destruct x; cbn [type_of] in T; try discriminate T; try discriminate Hn; try discriminate N.
+    + subst t0. cbn [index_known] in IK. discriminate IK.
+    + injection T as ->. unfold index_known in IK. destruct ku; try discriminate IK.
+      unfold wf in W. cbn [wfb] in W. eapply wf_assoc_get_ty; eassumption.
+  - (* tuple *)
+    destruct (conv k TNum) as [key'| |]; try (injection E as <- <-; bad K).
+    destruct (unmark key') as [ku km] eqn:U. cbn [fst].
+    unfold has_index in E. rewrite T in E.
+    destruct ku; try (injection E as <- <-; bad K).
+    + destruct (index_of_num n) as [i|] eqn:In; [|injection E as <- <-; bad K].
+      destruct (i <? length ts)%nat; [|injection E as <- <-; bad K].
+      destruct (index_known x (VNum n)) as [v|] eqn:IK; injection E as <- <-; [|bad K].
+      rewrite !type_of_with_marks.
+      destruct x; cbn [type_of] in T; try discriminate T; try discriminate Hn; try discriminate N.
+      * subst t. cbn [index_known] in IK. rewrite In in IK. destruct (nth_opt ts i); [|discriminate IK].
+        injection IK as <-. reflexivity.
+      * injection T as <-. cbn [index_known] in IK. rewrite In in IK. rewrite nth_opt_map, IK. reflexivity.
+    + injection E as <- _. rewrite !type_of_with_marks. reflexivity.
+  - (* object *)
+    destruct (conv k TStr) as [key'| |]; try (injection E as <- <-; bad K).
+    destruct (negb (is_known key')); [injection E as <- _; rewrite !type_of_with_marks; reflexivity|].
+    destruct (fst (unmark key')); try (injection E as <- <-; bad K).
+    destruct (assoc_get s fs) as [at_|] eqn:G; [|injection E as <- <-; bad K].
+    destruct (negb (hd_known x)); [injection E as <- _; rewrite type_of_with_marks; reflexivity|].
+    destruct x; try (injection E as <- <-; bad K). cbn [type_of] in T. injection T as <-.
+    rewrite assoc_get_map in G. destruct (assoc_get s l) eqn:G2; [|discriminate G]. cbn [option_map] in G.
+    injection E as <- _. rewrite type_of_with_marks. symmetry. exact G.
+Qed.
+
+Lemma index_type c k r ds :
+  wf c -> index c k = (r, ds) -> clean ds -> index_ty (type_of c) k = Some (type_of r).
+Proof.
+  intros W E K. rewrite index_unfold in E. rewrite type_of_unmark. destruct (wf_unmark _ W) as [N Wu].
+  eapply index_u_type; eassumption.
+Qed.
+
+Fixpoint trav_ty (steps : list step) (t : ty) : option ty :=
+  match steps with
+  | [] => Some t
+  | s :: r =>
+      match (match s with SAttr n => get_attr_ty t n | SIndex k => index_ty t k end) with
+      | Some t' => trav_ty r t'
+      | None => None
+      end
+  end.
+
+Lemma traverse_rel_unsup : forall st v acc r' ds',
+  traverse_rel st v acc = (r', ds') -> has_unsupported acc = true -> has_unsupported ds' = true.
+Proof.
+  induction st as [|s0 st IHs]; intros v acc r' ds' E Hu; cbn [traverse_rel] in E.
+  - injection E as _ <-. exact Hu.
+  - destruct (match s0 with SAttr n => get_attr v n | SIndex k => index v k end) as [v' d].
+    destruct (has_errors d).
+    + injection E as _ <-. rewrite has_unsupported_app, Hu. reflexivity.
+    + eapply IHs; [exact E|]. rewrite has_unsupported_app, Hu. reflexivity.
+Qed.
+
+Lemma traverse_rel_type steps : forall v acc r ds,
+  wf v -> traverse_rel steps v acc = (r, ds) -> clean ds -> trav_ty steps (type_of v) = Some (type_of r).
+Proof.
+  induction steps as [|s st IH]; intros v acc r ds W E K; cbn [traverse_rel trav_ty] in *.
+  - injection E as <- _. reflexivity.
+  - destruct (match s with SAttr n => get_attr v n | SIndex k => index v k end) as [v' d] eqn:S.
+    destruct (has_errors d) eqn:He.
+    { injection E as <- <-. exfalso. destruct K as [A _]. rewrite has_errors_app, He, orb_true_r in A. discriminate. }
+    assert (Hu : has_unsupported d = false).
+    { destruct (has_unsupported d) eqn:U; [|reflexivity]. exfalso. destruct K as [_ B].
+      rewrite (traverse_rel_unsup _ _ _ _ _ E) in B; [discriminate|]. rewrite has_unsupported_app, U. apply orb_true_r. }
+    assert (Wv' : wf v').
+    { destruct s; [pose proof (get_attr_wf v name W) as X|pose proof (index_wf v key W) as X]; rewrite S in X; exact X. }
+    assert (T : (match s with SAttr n => get_attr_ty (type_of v) n | SIndex k => index_ty (type_of v) k end) = Some (type_of v')).
+    { destruct s; [eapply get_attr_type|eapply index_type]; try eassumption; split; assumption. }
+    rewrite T. eapply IH; eassumption.
+Qed.
+
+(* the elements of a well-formed list / set have its element type *)
+Lemma elements_typed_list t l : wf (VList t l) -> Forall (fun kv : val * val => type_of (snd kv) = t) (elements (VList t l)).
+Proof.
+  unfold wf. cbn [wfb elements]. generalize 0. induction l as [|x r IH]; intros i H; cbn [index_from forallb] in *; constructor.
+  - apply andb_true_iff in H as [A _]. apply andb_true_iff in A as [A _]. apply ty_eqb_eq, A.
+  - apply andb_true_iff in H as [_ B]. apply IH, B.
+Qed.
+Lemma elements_typed_set t l : wf (VSet t l) -> Forall (fun kv : val * val => type_of (snd kv) = t) (elements (VSet t l)).
+Proof.
+  unfold wf. cbn [wfb elements]. induction l as [|x r IH]; intro H; cbn [map forallb] in *; constructor.
+  - apply andb_true_iff in H as [A _]. apply andb_true_iff in A as [A _]. apply ty_eqb_eq, A.
+  - apply andb_true_iff in H as [_ B]. apply IH, B.
+Qed.
+
+(* ---- splat over an unknown sequence / over a known list or set ------------------------------------- *)
+Definition splat_unk_ret (rt : ty) (sv : val) : val :=
+  match rt, type_of sv with
+  | TList _, (TList _ | TSet _ | TMap _) =>
+      match fst (unmark sv) with
+      | VUnk _ (RExact r) => finish_unknown rt (mkRefn true [] None None (r_lenlo r) (r_lenhi r))
+      | _ => VUnk rt RWild
+      end
+  | _, _ => if ty_eqb rt TDyn then VUnk rt rf_none else VUnk rt rf_notnull
+  end.
+
+Lemma splat_tail_unknown ev c sv0 ds :
+  has_errors ds = false -> is_null sv0 = false -> ty_eqb (type_of sv0) TDyn = false ->
+  is_seq_ty (type_of sv0) = true -> is_known sv0 = false ->
+  splat_tail ev c sv0 ds =
+  (with_same_marks (splat_unk_ret (fst (splat_result_ty ev c (type_of sv0))) sv0) sv0,
+   ds ++ snd (splat_result_ty ev c (type_of sv0))).
+Proof.
+  intros He Hn Hd Hq Hk. unfold splat_tail. rewrite He, Hn, Hd, Hq. cbn [negb andb]. cbv zeta. rewrite Hk. cbn [negb].
+  destruct (splat_result_ty ev c (type_of sv0)) as [rt tds]. reflexivity.
+Qed.
+
+Definition is_ls_ty (t : ty) : bool := match t with TList _ | TSet _ => true | _ => false end.
+
+Lemma splat_tail_list ev c sv0 ds su sm v d :
+  has_errors ds = false -> is_null sv0 = false -> ty_eqb (type_of sv0) TDyn = false ->
+  is_ls_ty (type_of sv0) = true -> is_known sv0 = true -> unmark sv0 = (su, sm) ->
+  splat_tail ev c sv0 ds = (v, d) -> clean d ->
+  match map fst (map (fun kv => ev c (Some (snd kv))) (elements su)) with
+  | [] => v = with_marks (VList (match fst (splat_result_ty ev c (type_of sv0)) with TList t => t | _ => TDyn end) []) sm /\
+          d = (ds ++ concat (map snd (map (fun kv => ev c (Some (snd kv))) (elements su)))) ++ snd (splat_result_ty ev c (type_of sv0))
+  | v0 :: rest =>
+      forallb (fun x => ty_eqb (type_of x) (type_of v0)) rest = true /\
+      v = with_marks (VList (type_of v0) (v0 :: rest)) sm /\
+      d = ds ++ concat (map snd (map (fun kv => ev c (Some (snd kv))) (elements su)))
+  end.
+Proof.
+  intros He Hn Hd Hl Hk Hu E K. unfold splat_tail in E.
+  assert (Hq : is_seq_ty (type_of sv0) = true) by (destruct (type_of sv0); try discriminate Hl; reflexivity).
+  rewrite He, Hn, Hd, Hq in E. cbn [negb andb] in E. cbv zeta in E. rewrite Hk in E. cbn [negb] in E. rewrite Hu in E.
+  rewrite has_errors_concat in E.
+  destruct (has_errors (concat (map snd (map (fun kv => ev c (Some (snd kv))) (elements su))))) eqn:Hc.
+  { cbn [negb] in E. injection E as <- <-. exfalso. destruct K as [K _]. rewrite has_errors_app, Hc, orb_true_r in K. discriminate K. }
+  cbn [negb] in E.
+  destruct (type_of sv0) eqn:T; try discriminate Hl.
+  - destruct (map fst _) as [|v0 rest].
+    + destruct (splat_result_ty ev c (TList t)) as [rt tds]. injection E as <- <-. split; reflexivity.
+    + destruct (forallb _ rest); injection E as <- <-; [repeat split; reflexivity|exfalso; bad K].
+  - destruct (map fst _) as [|v0 rest].
+    + destruct (splat_result_ty ev c (TSet t)) as [rt tds]. injection E as <- <-. split; reflexivity.
+    + destruct (forallb _ rest); injection E as <- <-; [repeat split; reflexivity|exfalso; bad K].
+Qed.
+
+Definition splat_okb (v : val) : bool :=
+  match type_of v with
+  | TList _ | TSet _ => false
+  | TTuple _ => is_known v
+  | _ => true
+  end.
+Lemma splat_okb_ok v : splat_okb v = true <-> splat_src_ok v.
+Proof.
+  unfold splat_okb, splat_src_ok. destruct (type_of v); split; intro H; try reflexivity; try exact I; try discriminate;
+    try contradiction; exact H.
+Qed.
+
+Definition seq_kind (t : ty) : Z := match t with TList _ => 1 | TSet _ => 2 | TTuple _ => 3 | _ => 0 end.
+Lemma seq_kind_leq m a b : leq m a b -> is_star m a = false -> wf a -> seq_kind (type_of a) = seq_kind (type_of b).
+Proof.
+  intros L S W. rewrite (type_of_unmark a), (type_of_unmark b).
+  pose proof (unmark_fst_leq _ _ _ L S) as Lu. destruct (wf_unmark _ W) as [N _].
+  revert Lu N. generalize (fst (unmark a)) (fst (unmark b)). intros u1 u2 Lu N.
+  leq_heads Lu; try discriminate N; try (injection Lu; intros; subst); reflexivity.
+Qed.
+
+(* low-equal, unstarred, unknown values are equal *)
+Lemma leq_unknown_eq m a b : leq m a b -> is_star m a = false -> wf a -> is_known a = false -> a = b.
+Proof.
+  intros L S W K. pose proof (unmark_fst_leq _ _ _ L S) as Lu. pose proof (marks_of_eq _ _ _ L S) as Me.
+  unfold marks_of in Me. rewrite is_known_hd in K.
+  assert (Eu : fst (unmark a) = fst (unmark b)).
+  { apply (leq_prim_eq m); [exact Lu|]. destruct (fst (unmark a)); try discriminate K; exact I. }
+  leq_heads L; cbn [unmark fst snd] in *; congruence.
+Qed.
+
+(* a known, non-null value of list / set type is a list / set *)
+Lemma known_list_shape x t : is_mark x = false -> type_of x = TList t -> hd_known x = true -> hd_null x = false ->
+  exists l, x = VList t l.
+Proof. destruct x; cbn; intros N T K Nn; try discriminate; try (injection T as ->); eauto. Qed.
+Lemma known_set_shape x t : is_mark x = false -> type_of x = TSet t -> hd_known x = true -> hd_null x = false ->
+  exists l, x = VSet t l.
+Proof. destruct x; cbn; intros N T K Nn; try discriminate; try (injection T as ->); eauto. Qed.
